@@ -2,6 +2,7 @@ package prog
 
 import (
 	"fmt"
+	ebu "github.com/jilio/ebu"
 	"sort"
 	"strings"
 )
@@ -244,7 +245,7 @@ func (e *Engine) CheckObs() {
 			return
 		}
 		ps := starts[ptok]
-		if ps.Info != e.drv(pi.typ).RType().String() {
+		if ps.Info != ebu.EventType(e.drv(pi.typ).Make(pi.eid)) {
 			e.fail("obs:pub-type", "publish %d: OnPublishStart event type %q", pi.eid, ps.Info)
 			return
 		}
